@@ -400,5 +400,11 @@ def shrink(c):
             yield dict(c, ps=c['ps'][:i] + c['ps'][i + 1:])
 
 
+def extra_obligations(work):
+    # T-int: the integer helpers this model mirrors, re-translated from the current source
+    import translate_int
+    return translate_int.obligations(work, translate_int.FOR['C12'])
+
+
 if __name__ == '__main__':
     sys.exit(common.main(sys.modules[__name__]))
